@@ -14,6 +14,14 @@ import json, os, subprocess, sys, shutil
 
 ENV = dict(os.environ, GOFLAGS="-mod=mod", GOPROXY="off", GOSUMDB="off", GOTOOLCHAIN="local")
 REPO = "/repo"
+LANE = ""
+if "--lane" in sys.argv:
+    LANE = sys.argv[sys.argv.index("--lane") + 1]
+    REPO = "/tmp/lane_%s/repo" % LANE
+    ENV["VERIF_LANE"] = LANE
+    if not os.path.isdir(REPO):
+        os.makedirs("/tmp/lane_%s" % LANE, exist_ok=True)
+        subprocess.run(["git", "-C", "/repo", "worktree", "add", "-q", "--detach", REPO, "HEAD"], check=True)
 SUITE = "go build ./... && go test -vet=off -count=1 ./authenticode/ ./pkcs7/ ./efi/... ./efivarfs/..."
 
 def sh(cmd, cwd=REPO, timeout=1800):
@@ -42,13 +50,13 @@ def main():
     for n in ("demo_test.go", "demo_main.go"):
         if os.path.exists(os.path.join(d, n)):
             demo_src = os.path.join(d, n)
-    demo_dst = os.path.join(REPO, meta["demo_path"])
+    demo_dst = os.path.join(REPO, meta["demo_path"].replace("/repo/", ""))
     if os.path.isdir(demo_dst) or demo_dst.endswith("/"):
         demo_dst = os.path.join(demo_dst, os.path.basename(demo_src))
     def run_demo():
         os.makedirs(os.path.dirname(demo_dst), exist_ok=True)
         shutil.copyfile(demo_src, demo_dst)
-        cmd = meta["demo_cmd"].replace("/tmp/seed/%s" % meta["property"], REPO)
+        cmd = meta["demo_cmd"].replace("/tmp/seed/%s" % meta["property"], REPO).replace("/repo", REPO)
         rc, out = sh(cmd, timeout=900)
         os.remove(demo_dst)
         return rc, out
